@@ -3,6 +3,7 @@ package seq
 import (
 	"bytes"
 	"fmt"
+	"strings"
 
 	"github.com/ClickHouse/ch-go/proto"
 
@@ -37,7 +38,7 @@ func decodeAuto(b []byte, rev int, compressed bool) error {
 
 // C07 — a truncated block or message is never accepted.
 func C07(c *vk.Ctx) {
-	c.Rule("corpus = the C01 blocks (every registry composition, plus name-based enums with a member numbered 0, bare and under Array / Nullable; x value sequences of length <= 1, length <= 2 for compositions of depth <= 1; thorough: length <= 2 everywhere) at revision 54460 and the C17 messages (base and every single-field deviation) at three revisions; for each encoding EVERY proper prefix is decoded through the typed target and, where the type is inferable, through Auto; the same blocks wrapped in None / LZ4 / ZSTD frames (one frame and two frames) are cut at every position of the framed stream. A prefix that the reference model parses as a complete message is not a truncation and is excluded. Large values (a string of 1 MiB + 11 bytes; thorough also 1 MiB, 2 MiB + 5, 128 KiB + 3) as the only, first, last, array-element, nullable, dictionary and map value of a block (plain and as a sequence of 1 MiB LZ4 frames) and as the last field of TableColumns / Exception / ClientData: cut at every byte of the first and last 80 bytes and around the value's start, within +-3 of every 64 KiB multiple from the stream start and from the value start, and every 4099th byte (a stated subset: cutting 1 MiB everywhere is 10^12 byte copies). Oracle: decoding returns an error, never nil. distinct_nontrivial = (encoding, cut position, decoder) cases.")
+	c.Rule("corpus = the C01 blocks (every registry composition, plus name-based enums with a member numbered 0, bare and under Array / Nullable; x value sequences of length <= 1, length <= 2 for compositions of depth <= 1; thorough: length <= 2 everywhere) at revision 54460 and the C17 messages (base and every single-field deviation) at three revisions; for each encoding EVERY proper prefix is decoded through the typed target and, where the type is inferable, through Auto; the same blocks wrapped in None / LZ4 / ZSTD frames (one frame and two frames) are cut at every position of the framed stream. A prefix that the reference model parses as a complete message is not a truncation and is excluded. Large values (a string of 1 MiB + 11 bytes; thorough also 1 MiB, 2 MiB + 5, 128 KiB + 3) as the only, first, last, array-element, nullable, dictionary and map value of a block (plain and as a sequence of 1 MiB LZ4 frames) and as the last field of TableColumns / Exception / ClientData: cut at every byte of the first and last 80 bytes and around the value's start, within +-3 of every 64 KiB multiple from the stream start and from the value start, and every 4099th byte (a stated subset: cutting 1 MiB everywhere is 10^12 byte copies). Many-row blocks (4095 / 4096 / 8192 rows; thorough also 4097 / 12288 / 65536) of every base column, every composition over Nothing and seven wrappers: cut at every byte of the first and last 80 and within +-3 of the first and last sixteen multiples of 4096. Oracle: decoding returns an error, never nil. distinct_nontrivial = (encoding, cut position, decoder) cases.")
 	quick := c.Quick()
 	rev := 54460
 	// besides the registry: name-based enums that have a member with the number 0 (a
@@ -197,6 +198,7 @@ func C07(c *vk.Ctx) {
 		}
 	}
 	c07Large(c)
+	c07ManyRows(c)
 	c.Sample(map[string]any{"encoding": "block with one column Array(LowCardinality(String)) holding [[\"a\"]]", "cuts": "every k in 0..len-1, plain; every k of the LZ4-framed stream (inside checksum, header, payload)", "oracle": "DecodeBlock returns an error"})
 }
 
@@ -375,6 +377,105 @@ func c07Large(c *vk.Ctx) {
 					c.Violation("C07/truncated-message-accepted/large-"+m.name, id, fmt.Sprintf("%d of %d bytes of a %s decode without error", k, len(m.enc), m.name), nil)
 				}
 				c.Eval("large values", 1)
+				c.DistinctN(1)
+			}
+		}
+	}
+}
+
+// c07ManyRows: blocks with many rows — row counts at and next to the sizes in which readers
+// and decoders work (4096-byte buffer, 64 Ki rows) — of every base column and of wrappers
+// whose payload is not proportional to a byte count the decoder sees at once. Cut at every
+// byte of the first and last 80, and within +-3 of the first and last sixteen multiples of
+// 4096 (from the start and from the end of the stream).
+func c07ManyRows(c *vk.Ctx) {
+	rev := 54460
+	var entries []reg.Entry
+	for _, e := range regEntries(c) {
+		if e.Depth == 0 || strings.Contains(e.Label, "Nothing") {
+			entries = append(entries, e)
+		}
+	}
+	for _, l := range []string{"Array(UInt8)", "Nullable(UInt8)", "LowCardinality(UInt8)", "Map(String, UInt8)", "Array(String)", "Nullable(String)", "LowCardinality(String)"} {
+		if e, ok := regtab.ByLabel(l); ok {
+			entries = append(entries, e)
+		}
+	}
+	rowCounts := []int{4095, 4096, 8192}
+	if !c.Quick() {
+		rowCounts = append(rowCounts, 4097, 12288, 65536)
+	}
+	n := int64(0)
+	for _, e := range entries {
+		if noRef(e.Label) {
+			continue
+		}
+		for _, rows := range rowCounts {
+			n++
+			if c.Only == "" && !c.Mine(n) {
+				continue
+			}
+			idx := make([]int, rows)
+			for i := range idx {
+				idx[i] = (i*7 + i/251) % 5
+			}
+			var stream []byte
+			if msg, _ := vk.Recover(func() {
+				col, _, _, err := build(e, idx)
+				if err != nil {
+					return
+				}
+				stream, _ = encodeBlock1(col.C, "col", rev, nil)
+			}); msg != "" || stream == nil {
+				continue
+			}
+			if got, err := decodeTyped(e, stream, rev, false); err != nil || got != rows {
+				c.Violation("C07/many/complete-block-rejected/"+e.Label, fmt.Sprintf("many/%s/rows=%d/full", e.Label, rows), fmt.Sprintf("the complete block does not decode: rows=%d err=%v", got, err), nil)
+				continue
+			}
+			total := len(stream)
+			seen := map[int]bool{}
+			var cuts []int
+			add := func(k int) {
+				if k >= 0 && k < total && !seen[k] {
+					seen[k] = true
+					cuts = append(cuts, k)
+				}
+			}
+			for k := 0; k < 80; k++ {
+				add(k)
+				add(total - 1 - k)
+			}
+			for m := 1; m <= 16; m++ {
+				for d := -3; d <= 3; d++ {
+					add(m*4096 + d)
+					add(total - m*4096 + d)
+				}
+			}
+			inferable := new(proto.ColAuto).Infer(proto.ColumnType(e.New().Type())) == nil
+			for _, k := range cuts {
+				id := fmt.Sprintf("many/%s/rows=%d/cut=%d", e.Label, rows, k)
+				if c.Only != "" && c.Only != id {
+					continue
+				}
+				c.Current(id)
+				var got int
+				var derr error
+				msg, fn := vk.Recover(func() { got, derr = decodeTyped(e, stream[:k], rev, false) })
+				if msg != "" {
+					c.Violation("C07/panic/"+fn, id, msg, nil)
+				} else if derr == nil {
+					c.Violation("C07/truncated-block-accepted/typed/many-rows", id, fmt.Sprintf("%d of %d bytes decode without error (%d rows reported)", k, total, got), nil)
+				}
+				if inferable {
+					msg, fn = vk.Recover(func() { derr = decodeAuto(stream[:k], rev, false) })
+					if msg != "" {
+						c.Violation("C07/panic/"+fn, id, msg, nil)
+					} else if derr == nil {
+						c.Violation("C07/truncated-block-accepted/auto/many-rows", id, fmt.Sprintf("%d of %d bytes decode without error through Auto", k, total), nil)
+					}
+				}
+				c.Eval("many rows", 1)
 				c.DistinctN(1)
 			}
 		}
